@@ -20,6 +20,7 @@ type GenOpt struct {
 	Votes      bool
 	Vetoes     bool
 	Contracts  bool
+	Calls      bool // outputs locked by contract calls, spent once the contract is registered on the branch
 	CoinbaseSp bool // spend matured coinbase rewards
 	Chained    bool // transactions spending outputs created in the same block
 	SkipSlots  bool // sometimes leave empty time slots
@@ -64,14 +65,14 @@ func (n *Net) EarliestSpend(u *RefUtxo) uint64 {
 }
 
 // sample contracts: tiny programs that succeed.
-var sampleContracts = [][]byte{{0x51}, {0x51, 0x51, 0x87}, {0x52, 0x52, 0x87}, {0x01, 0x07, 0x75, 0x51}}
+var sampleContracts = [][]byte{{0x51}, {0x51, 0x51, 0x87}, {0x52, 0x52, 0x87}, {0x01, 0x07, 0x75, 0x51}, {0x00}}
 
 // GenTxs builds ledger-valid transactions for a block on parent p (the reference ledger decides spendability).
 func (t *Tree) GenTxs(r *ev.Rand, p *Blk, o GenOpt) []*types.Tx {
 	n := t.Net
 	h := p.Height + 1
 	us := p.SortedUtxos()
-	var btm, other, votes, cbs []*RefUtxo
+	var btm, other, votes, cbs, calls []*RefUtxo
 	for _, u := range us {
 		if !n.Spendable(u, h) {
 			continue
@@ -82,6 +83,13 @@ func (t *Tree) GenTxs(r *ev.Rand, p *Blk, o GenOpt) []*types.Tx {
 		case u.Type == UCoinbase:
 			cbs = append(cbs, u)
 		case u.U.Asset == BTM:
+			if h, ok := IsCall(u.U.Program); ok {
+				// spendable unless a failing contract is registered on this branch
+				if v, reg := p.Contracts[h]; o.Calls && !(reg && ContractFails(v[32:])) {
+					calls = append(calls, u)
+				}
+				continue
+			}
 			if u.U.Amount > 10*DefaultFee {
 				btm = append(btm, u)
 			}
@@ -149,6 +157,11 @@ func (t *Tree) GenTxs(r *ev.Rand, p *Blk, o GenOpt) []*types.Tx {
 				ins = append(ins, u.U)
 			}
 		}
+		if len(calls) > 0 && r.Chance(2, 3) {
+			if u := take(calls); u != nil {
+				ins = append(ins, u.U)
+			}
+		}
 		if len(other) > 0 && r.Chance(1, 4) {
 			if u := take(other); u != nil {
 				ins = append(ins, u.U)
@@ -176,8 +189,19 @@ func (t *Tree) GenTxs(r *ev.Rand, p *Blk, o GenOpt) []*types.Tx {
 			left -= amt
 		case o.Contracts && kind == 3 && left > 2*consensus.BCRPRequiredBTMAmount:
 			c := sampleContracts[r.Intn(len(sampleContracts))]
+			if o.Calls && r.Chance(1, 2) {
+				c = sampleContracts[len(sampleContracts)-1]
+			}
 			outs = append(outs, Out{Asset: BTM, Amount: consensus.BCRPRequiredBTMAmount, Program: RegisterProg(c)})
 			left -= consensus.BCRPRequiredBTMAmount
+		case o.Calls && kind == 4 && left > 4*DefaultFee:
+			// an output that can only be spent by running a (maybe not yet, maybe never registered) contract
+			c := sampleContracts[r.Intn(len(sampleContracts))]
+			if r.Chance(1, 2) {
+				c = sampleContracts[len(sampleContracts)-1] // the failing contract: validity depends on the table
+			}
+			outs = append(outs, Out{Asset: BTM, Amount: 2 * DefaultFee, Program: CallProg(c)})
+			left -= 2 * DefaultFee
 		}
 		k := 1 + r.Intn(2)
 		for j := 0; j < k; j++ {
@@ -190,7 +214,7 @@ func (t *Tree) GenTxs(r *ev.Rand, p *Blk, o GenOpt) []*types.Tx {
 		tx := MakeTx(ins, outs, 0)
 		txs = append(txs, tx)
 		for _, u := range Outputs(tx) {
-			if u.Vote == nil {
+			if _, call := IsCall(u.Program); u.Vote == nil && !call {
 				fresh = append(fresh, u)
 			}
 		}
